@@ -18,7 +18,7 @@ import numpy as np
 
 from harness import common
 from harness.common import Failure, lean_run
-from harness.c05 import norm_value
+from harness.c05 import noncontig, norm_value
 
 PROP_MODULES = ["ArmiVerif.Props.C04"]
 PARTIAL = ("theorems cover the layout / locator / index / grid-table logic, child order (load(save t) = t sorted; = t iff "
@@ -46,6 +46,7 @@ DERIVED = {
     "Block": {"height": "changed through setHeight (the assembly mesh and z coordinates follow it)", "z": "calculateZCoords", "zbottom": "calculateZCoords", "ztop": "calculateZCoords",
               "assemNum": "identity", "kgHM": "setBlockMassParams", "kgFis": "setBlockMassParams", "puFrac": "setBlockMassParams"},
     "Component": {"temperatureInC": "changed through setTemperature (dimensions and densities follow it)",
+                  "theoreticalDensityFrac": "changed together with material.adjustTD (the material state follows it on load)",
                   "volume": "recomputed from dimensions", "area": "recomputed for derived shapes"},
     "*": {"serialNum": "identity", "flags": "derived from the name; not saved"},
 }
@@ -232,13 +233,23 @@ def dump(r):
     from armi.reactor.components.component import _DimensionLink
 
     out = {}
+    mat_owner = {}
     for c in all_objects(r):
         rec = {"family": class_family(c), "gridShared": c.spatialGrid is not None and c.spatialGrid.armiObject is not c,
                "type": type(c).__name__, "name": c.name, "kids": tuple(int(k.p.serialNum) for k in c),
                "parent": None if c.parent is None else int(c.parent.p.serialNum),
-               "loc": loc_rep(c.spatialLocator), "xyz": global_xyz(c.spatialLocator), "grid": grid_rep(c.spatialGrid)}
+               "flags": str(c.p.flags), "loc": loc_rep(c.spatialLocator), "xyz": global_xyz(c.spatialLocator), "grid": grid_rep(c.spatialGrid)}
         if isinstance(c, Component):
             rec["material"] = type(c.material).__name__
+            try:
+                rec["matTD"] = float(c.material.getTD())
+            except Exception as e:  # noqa: BLE001
+                rec["matTD"] = "EXC:" + type(e).__name__
+            try:
+                rec["matRho"] = float(c.material.pseudoDensity(Tc=c.temperatureInC))
+            except Exception as e:  # noqa: BLE001
+                rec["matRho"] = "EXC:" + type(e).__name__
+            mat_owner.setdefault(id(c.material), []).append(int(c.p.serialNum))
             rec["T"] = (fcode(c.inputTemperatureInC), fcode(c.temperatureInC))
             dims = {}
             for d in c.DIMENSION_NAMES:
@@ -268,6 +279,10 @@ def dump(r):
                 ps[pdef.name] = "EXC:" + type(e).__name__
         rec["params"] = ps
         out[int(c.p.serialNum)] = rec
+    # material identity: which components share one Material INSTANCE (canonical: smallest serial of the sharing set)
+    for sns in mat_owner.values():
+        for sn in sns:
+            out[sn]["matSharedWith"] = min(sns)
     return out
 
 
@@ -327,6 +342,17 @@ def compare(d0, d1, what):
             diffs.append((gkey, f"{what}: same grid", {**ident, "fields": fields,
                                                        "before": {f: (a["grid"] or {}).get(f) for f in fields[:2]},
                                                        "after": {f: (b["grid"] or {}).get(f) for f in fields[:2]}}))
+        if "matTD" in a and not close_float(a.get("matTD"), b.get("matTD"), 1e-12):
+            diffs.append(("material-td", f"{what}: same material state (theoretical density fraction)",
+                          {**ident, "before": a.get("matTD"), "after": b.get("matTD")}))
+        if "matRho" in a and not close_float(a.get("matRho"), b.get("matRho"), 1e-12):
+            diffs.append(("material-density", f"{what}: same material state (density function at the component temperature)",
+                          {**ident, "before": a.get("matRho"), "after": b.get("matRho")}))
+        if a.get("flags") != b.get("flags"):
+            diffs.append(("flags", f"{what}: same flags", {**ident, "before": a.get("flags"), "after": b.get("flags")}))
+        if a.get("matSharedWith") != b.get("matSharedWith"):
+            diffs.append(("material-instance-sharing", f"{what}: components share a Material instance only if the saved ones did",
+                          {**ident, "before": a.get("matSharedWith"), "after": b.get("matSharedWith")}))
         for k in ("material", "T"):
             if a.get(k) != b.get(k):
                 diffs.append((f"component-{k}", f"{what}: same {k}", {**ident, "before": a.get(k), "after": b.get(k)}))
@@ -384,7 +410,7 @@ def new_value(rng, cur, pname, idx):
         if kind == "1d":
             return np.array([common.dyadic(rng, -9, 9, 6) for _ in range(1 + (idx % 4) if rng.random() < 0.6 else 3)])
         rows = 2 + idx % 5 if rng.random() < 0.7 else 3
-        return np.array([[common.dyadic(rng, 0, 99, 5) for _ in range(4)] for _ in range(rows)])
+        return noncontig(np.array([[common.dyadic(rng, 0, 99, 5) for _ in range(4)] for _ in range(rows)]), rng.randrange(4))
     if isinstance(cur, np.ndarray) and cur.dtype.kind == "f" and cur.size:
         return cur + common.dyadic(rng, -3, 3, 4)
     if isinstance(cur, list) and cur and all(isinstance(x, (float, np.floating)) for x in cur):
@@ -416,9 +442,11 @@ def mutate(rng, o, r, nobj, ops):
             for ib, (i, b) in enumerate(blocks[: 40]):
                 shape = (2 + ib % 5, 4) if pname.startswith("pin") else (3 + ib % 3,)
                 val = np.array([common.dyadic(rng, 0, 999, 4) for _ in range(int(np.prod(shape)))]).reshape(shape)
+                lay = rng.randrange(4)
+                val = noncontig(val, lay)       # Fortran-ordered / strided / swapped-axes views as well as C order
                 try:
                     b.p[pname] = val
-                    ops.append(["setparam", i, pname, val.tolist()])
+                    ops.append(["setparam", i, pname, val.tolist(), lay])
                 except Exception:  # noqa: BLE001
                     break
     for i in picks:
@@ -437,7 +465,11 @@ def mutate(rng, o, r, nobj, ops):
                 with contextlib.suppress(Exception):
                     c.p[p.name] = cur     # some setters store the value before refusing it (xsTypeNum): put the old one back
                 continue
-            ops.append(["setparam", i, p.name, val.tolist() if isinstance(val, np.ndarray) else val])
+            if isinstance(val, np.ndarray):
+                lay = 0 if val.flags["C_CONTIGUOUS"] else 1 if val.flags["F_CONTIGUOUS"] else 2
+                ops.append(["setparam", i, p.name, val.tolist(), lay])
+            else:
+                ops.append(["setparam", i, p.name, val])
     # API edits that keep derived parameters consistent
     comps = [(i, c) for i, c in enumerate(objs) if isinstance(c, Component)]
     for i, c in rng.sample(comps, min(3, len(comps))):
@@ -489,6 +521,38 @@ def mutate(rng, o, r, nobj, ops):
         try:
             c.setNumberDensities(new)
             ops.append(["setNumberDensities", i, [[k, v] for k, v in new.items()], variant])
+        except Exception:  # noqa: BLE001
+            continue
+    # MATERIAL STATE: components of one material class get DIFFERENT theoretical-density fractions (material attribute
+    # and parameter together, as the blueprint loader does); a loader sharing material objects would leak one to all
+    bymat = {}
+    for i, c in comps:
+        bymat.setdefault(type(c.material).__name__, []).append((i, c))
+    mgroups = [g for g in bymat.values() if len(g) >= 2]
+    for g in rng.sample(mgroups, min(2, len(mgroups))):
+        for (i, c), td in zip(rng.sample(g, min(2, len(g))), rng.sample([0.5, 0.625, 0.75, 0.875, 0.90625, 0.96875], 2)):
+            try:
+                c.material.adjustTD(td)
+                c.p.theoreticalDensityFrac = td
+                ops.append(["setTD", i, td])
+            except Exception:  # noqa: BLE001
+                continue
+    # LINK TARGETS whose TYPE differs from their NAME: dimension links are stored by sibling name
+    from armi.reactor.components.component import _DimensionLink
+    targets = []
+    for i, c in comps[:3000]:
+        for d in c.DIMENSION_NAMES:
+            v = c.p[d]
+            if isinstance(v, _DimensionLink):
+                targets.append(v[0])
+    tset = {id(t): t for t in targets}
+    tlist = [(i, c) for i, c in comps if id(c) in tset]
+    for i, c in rng.sample(tlist, min(2, len(tlist))):
+        sibs = [x.name for x in c.parent if x is not c] if c.parent is not None else []
+        typ = rng.choice(sibs) if (sibs and rng.random() < 0.3) else c.name + " retyped"
+        try:
+            c.setType(typ)
+            ops.append(["setType", i, typ])
         except Exception:  # noqa: BLE001
             continue
     # class-aware: a class whose instances ALL hold dicts of one length (e.g. every DerivedShape coolant {NA23}); one
@@ -574,6 +638,8 @@ def record_edit_states(ctx, fixture, r, new_ops):
         if kind == "setparam":
             v = op[3]
             form = ("array%dd" % np.ndim(v)) if isinstance(v, list) else type(v).__name__
+            if isinstance(v, list) and len(op) > 4 and op[4]:
+                form += "-noncontiguous"
         elif kind == "setNumberDensities":
             form = op[3]
         ctx.case((fixture, kind, form, cls), nontrivial=True)
@@ -589,13 +655,18 @@ def apply_ops(r, ops, o=None):
         kind = op[0]
         if kind == "setparam":
             v = op[3]
-            objs[op[1]].p[op[2]] = np.array(v) if isinstance(v, list) else v
+            objs[op[1]].p[op[2]] = noncontig(np.array(v), op[4] if len(op) > 4 else 0) if isinstance(v, list) else v
         elif kind == "setTemperature":
             objs[op[1]].setTemperature(op[2])
         elif kind == "setNumberDensity":
             objs[op[1]].setNumberDensity(op[2], op[3])
         elif kind == "setNumberDensities":
             objs[op[1]].setNumberDensities({k: v for k, v in op[2]})
+        elif kind == "setTD":
+            objs[op[1]].material.adjustTD(op[2])
+            objs[op[1]].p.theoreticalDensityFrac = op[2]
+        elif kind == "setType":
+            objs[op[1]].setType(op[2])
         elif kind == "setHeight":
             a = objs[op[1]]
             [b for b in a][op[2]].setHeight(op[3])
@@ -647,6 +718,7 @@ def load_db(o, r, fn):
 
 
 KNOWN_KEYS = {
+    "material-density": "material-input-modifications-not-restored",
     "shared-grid": "shared-grid-instance-loads-as-per-object-copies",
     "int-reads-back-as-float": "int-reads-back-as-float-in-mixed-column",
     "child-order": "child-order-after-unsorted-edit",
